@@ -105,10 +105,40 @@ def cMachine (c : CCfg) : Machine CSt := ⟨c.n, c.next, c.step, CCfg.final⟩
 def nMachine (c : NCfg) : Machine NSt := ⟨c.n, c.next, c.step, NCfg.final⟩
 
 /-- master-only run (`assemble_master`): the events must be `enter c, leave c` for the cells in order, then combine -/
-def validateMaster (d : Dist) (ns ncb : Bool) (evs : List Ev) : Except String Unit :=
-  let exp : List Ev := (if ns then d.elemIdx.flatMap fun c => [Ev.enter 0 c, Ev.leave 0 c] else []) ++
-    (if ncb then [Ev.center 0, Ev.cleave 0] else [])
-  if evs.filter (!isInternal ·) = exp then .ok () else .error "master-only event sequence differs"
+def feedM (c : MCfg) : List EEv → Nat → MSt → Except String MSt
+  | [], _, s => .ok s
+  | e :: es, k, s =>
+    match c.estep s e with
+    | some s' => feedM c es (k + 1) s'
+    | none => .error s!"event {k} ({repr e}) is not a transition of the master-only model"
+
+/-- master-only run (`assemble_master`), with or without a throwing task: replay on `MCfg.estep`.  Only the job-level
+events of the calling thread and its `open(false)` on fence 0 are events of that machine; for jobs without scatter the
+elements passed before the failure are not observable and are supplied as `leave` steps. -/
+def validateMasterE (d : Dist) (ns ncb : Bool) (raw : List RawEv) : Except String Unit := do
+  let c : MCfg := ⟨d.elemIdx.length, fun p => d.elemIdx.getD p 0, ns, ncb⟩
+  let evs : List EEv := raw.filterMap fun e =>
+    match e.kind with
+    | 3 => some (.ok (.enter 0 e.a)) | 4 => some (.ok (.leave 0 e.a))
+    | 5 => some (.ok (.center 0)) | 6 => some (.ok (.cleave 0))
+    | 13 => some (.fail 0)
+    | 11 => if e.a = 0 then some (.fopenF 0 0) else none
+    | _ => none
+  let try1 := fun (k : Nat) =>
+    let pre : List EEv := if ns then [] else (List.range k).map fun p => EEv.ok (.leave 0 (c.cell p))
+    match feedM c (pre ++ evs) 0 c.init with
+    | .ok s => if MCfg.efinal s then Except.ok () else Except.error "log ends in a non-final state"
+    | .error e => Except.error e
+  if ns then try1 0
+  else
+    -- without scatter: the failure (if any) happened at the cell named in the `fail` event, before or after it
+    let fc := (raw.find? (·.kind = 13)).map (·.a)
+    let k := match fc with | some x => (d.elemIdx.findIdx (· == x)) | none => c.cnt
+    match try1 k with
+    | .ok () => pure ()
+    | .error _ => match try1 (k + 1) with
+      | .ok () => pure ()
+      | .error _ => try1 c.cnt
 
 def toEEv (bind : Nat → Nat) (e : RawEv) : Option EEv :=
   match e.kind with
@@ -235,7 +265,9 @@ def validate (d : Dist) (ns ncb hooks failing : Bool) (fs : List Bool) (raw : Li
     -- outcome (termination, results of the following jobs) is checked
     if hooks ∧ d.nW ≠ 0 ∧ !d.elemIdx.isEmpty then return (← validateErr d ns ncb fs raw bind)
     else if d.elemIdx.isEmpty then return fs
-    else if d.nW = 0 then return (List.replicate d.nFences true)
+    else if d.nW = 0 then
+      validateMasterE d ns ncb raw
+      return (List.replicate d.nFences true)
     else return (resetAll fs).set 0 true
   if hooks ∧ d.nW ≠ 0 ∧ !d.elemIdx.isEmpty then return (← validateX d ns ncb fs raw bind)
   let evs := raw.filterMap (toEv bind)
@@ -257,7 +289,7 @@ def validate (d : Dist) (ns ncb hooks failing : Bool) (fs : List Bool) (raw : Li
   let fuel := 4 * (d.nW + 2) * (d.colorElems.length + 2) + 16
   if d.nW = 0 then
     -- `assemble_master`: reset, open front and back, work on the calling thread
-    validateMaster d ns ncb evs
+    validateMasterE d ns ncb raw
     return (fs1.set 0 true).set (d.nFences - 1) true
   else if !ns then
     -- jobs without scatter: workers touch no fence, the master opens the front fence and joins (every strategy)
